@@ -1,0 +1,1256 @@
+//go:build verif
+// +build verif
+
+package raft
+
+// Hook API for the codecdiff correspondence engine (property C18).
+//
+// Nothing here changes behaviour: the file only adds exported entry points that
+// let an external package drive the unexported encoders/decoders, the task
+// response codec, server.handleTask, the Client methods and the value-file
+// naming code. Values cross the boundary as JSON in the same canonical shape the
+// Lean model driver uses: uint64 as decimal strings, bytes/strings as hex,
+// small enums as numbers, nil as null, maps as lists.
+
+import (
+	"bufio"
+	"bytes"
+	"encoding/hex"
+	"encoding/json"
+	"errors"
+	"fmt"
+	"io"
+	"io/ioutil"
+	"math"
+	"net"
+	"os"
+	"path/filepath"
+	"sort"
+	"strconv"
+	"strings"
+	"sync"
+	"time"
+)
+
+// VerifTempDir is the parent of the temporary directories used by the
+// value-file hooks ("" = system default).
+var VerifTempDir string
+
+type vcMap = map[string]interface{}
+
+// ---------------------------------------------------------------- json helpers
+
+func vcU64(v uint64) string  { return strconv.FormatUint(v, 10) }
+func vcHex(b []byte) string  { return hex.EncodeToString(b) }
+func vcHexS(s string) string { return hex.EncodeToString([]byte(s)) }
+
+func vcGetU64(m vcMap, k string) uint64 {
+	s, ok := m[k].(string)
+	if !ok {
+		panic(fmt.Errorf("verif: field %s: want decimal string, got %T", k, m[k]))
+	}
+	v, err := strconv.ParseUint(s, 10, 64)
+	if err != nil {
+		panic(fmt.Errorf("verif: field %s: %v", k, err))
+	}
+	return v
+}
+
+func vcGetU8(m vcMap, k string) uint8 {
+	f, ok := m[k].(float64)
+	if !ok {
+		panic(fmt.Errorf("verif: field %s: want number, got %T", k, m[k]))
+	}
+	return uint8(f)
+}
+
+func vcGetBool(m vcMap, k string) bool {
+	b, ok := m[k].(bool)
+	if !ok {
+		panic(fmt.Errorf("verif: field %s: want bool, got %T", k, m[k]))
+	}
+	return b
+}
+
+func vcUnhex(v interface{}, k string) []byte {
+	s, ok := v.(string)
+	if !ok {
+		panic(fmt.Errorf("verif: field %s: want hex string, got %T", k, v))
+	}
+	b, err := hex.DecodeString(s)
+	if err != nil {
+		panic(fmt.Errorf("verif: field %s: %v", k, err))
+	}
+	return b
+}
+
+func vcGetBytes(m vcMap, k string) []byte { return vcUnhex(m[k], k) }
+func vcGetStr(m vcMap, k string) string   { return string(vcUnhex(m[k], k)) }
+
+func vcGetMap(m vcMap, k string) vcMap {
+	r, ok := m[k].(map[string]interface{})
+	if !ok {
+		panic(fmt.Errorf("verif: field %s: want object, got %T", k, m[k]))
+	}
+	return r
+}
+
+func vcGetList(m vcMap, k string) []interface{} {
+	if m[k] == nil {
+		return nil
+	}
+	r, ok := m[k].([]interface{})
+	if !ok {
+		panic(fmt.Errorf("verif: field %s: want list, got %T", k, m[k]))
+	}
+	return r
+}
+
+func vcParse(b []byte) vcMap {
+	var m vcMap
+	if err := json.Unmarshal(b, &m); err != nil {
+		panic(fmt.Errorf("verif: bad json: %v", err))
+	}
+	return m
+}
+
+func vcJSON(v interface{}) []byte {
+	b, err := json.Marshal(v)
+	if err != nil {
+		panic(err)
+	}
+	return b
+}
+
+// vcErrKind maps a decoder error to the small enum shared with the model.
+func vcErrKind(err error) string {
+	if err == nil {
+		return ""
+	}
+	if err == io.EOF {
+		return "eof"
+	}
+	if err == io.ErrUnexpectedEOF {
+		return "unexpectedEof"
+	}
+	msg := err.Error()
+	switch {
+	case msg == "raft: expected entryConfig in Config.decode":
+		return "notConfig"
+	case msg == "invalidTaskType":
+		return "invalidTaskType"
+	case strings.HasPrefix(msg, "raft: server.handleRpc got rpcType"):
+		return "invalidRpcType"
+	}
+	return "other:" + msg
+}
+
+func vcRecover(errKind *string) {
+	if r := recover(); r != nil {
+		if e, ok := r.(error); ok && strings.HasPrefix(e.Error(), "verif:") {
+			*errKind = "harness:" + e.Error()
+			return
+		}
+		*errKind = "panic"
+	}
+}
+
+// ---------------------------------------------------------------- value <-> json
+
+func vcEntryFrom(m vcMap) *entry {
+	return &entry{
+		index: vcGetU64(m, "index"),
+		term:  vcGetU64(m, "term"),
+		typ:   entryType(vcGetU8(m, "typ")),
+		data:  vcGetBytes(m, "data"),
+	}
+}
+
+func vcEntryTo(e *entry) vcMap {
+	return vcMap{"index": vcU64(e.index), "term": vcU64(e.term), "typ": int(e.typ), "data": vcHex(e.data)}
+}
+
+func vcNodeFrom(m vcMap) Node {
+	return Node{
+		ID:     vcGetU64(m, "id"),
+		Addr:   vcGetStr(m, "addr"),
+		Voter:  vcGetBool(m, "voter"),
+		Data:   vcGetStr(m, "data"),
+		Action: Action(vcGetU8(m, "action")),
+	}
+}
+
+func vcNodeTo(n Node) vcMap {
+	return vcMap{"id": vcU64(n.ID), "addr": vcHexS(n.Addr), "voter": n.Voter, "data": vcHexS(n.Data), "action": int(n.Action)}
+}
+
+// the map key is the node id (what Config.validate demands and decode produces)
+func vcConfigFrom(m vcMap) Config {
+	c := Config{Index: vcGetU64(m, "index"), Term: vcGetU64(m, "term")}
+	nodes := vcGetList(m, "nodes")
+	if nodes == nil {
+		return c // nil map
+	}
+	c.Nodes = make(map[uint64]Node)
+	for _, x := range nodes {
+		n := vcNodeFrom(x.(map[string]interface{}))
+		c.Nodes[n.ID] = n
+	}
+	return c
+}
+
+func vcSortedIDs(ids []uint64) []uint64 {
+	sort.Slice(ids, func(i, j int) bool { return ids[i] < ids[j] })
+	return ids
+}
+
+// vcConfigTo lists the nodes in the given id order (nil = id-sorted).
+func vcConfigTo(c Config, order []uint64) vcMap {
+	if order == nil {
+		for id := range c.Nodes {
+			order = append(order, id)
+		}
+		vcSortedIDs(order)
+	}
+	nodes := make([]interface{}, 0, len(order))
+	for _, id := range order {
+		n, ok := c.Nodes[id]
+		if !ok {
+			panic(fmt.Errorf("verif: encoded node id %d not in config", id))
+		}
+		nodes = append(nodes, vcNodeTo(n))
+	}
+	return vcMap{"index": vcU64(c.Index), "term": vcU64(c.Term), "nodes": nodes}
+}
+
+// vcNodeOrder reads the node ids of an encoded config (the entry data) in wire order.
+func vcNodeOrder(data []byte) []uint64 {
+	r := bytes.NewReader(data)
+	n, err := readUint32(r)
+	if err != nil {
+		panic(fmt.Errorf("verif: node order: %v", err))
+	}
+	order := make([]uint64, 0, n)
+	for ; n > 0; n-- {
+		var nd Node
+		if err := nd.decode(r); err != nil {
+			panic(fmt.Errorf("verif: node order: %v", err))
+		}
+		order = append(order, nd.ID)
+	}
+	return order
+}
+
+// vcConfigOrderAt decodes the config entry at the reader position and returns its order.
+func vcConfigOrderAt(r io.Reader) []uint64 {
+	e := &entry{}
+	if err := e.decode(r); err != nil {
+		panic(fmt.Errorf("verif: config order: %v", err))
+	}
+	return vcNodeOrder(e.data)
+}
+
+func vcSkip(r io.Reader, n int) {
+	if _, err := io.CopyN(ioutil.Discard, r, int64(n)); err != nil {
+		panic(fmt.Errorf("verif: skip: %v", err))
+	}
+}
+
+func vcReqFrom(m vcMap) req { return req{term: vcGetU64(m, "term"), src: vcGetU64(m, "src")} }
+
+func vcReqInto(m vcMap, r req) vcMap {
+	m["term"] = vcU64(r.term)
+	m["src"] = vcU64(r.src)
+	return m
+}
+
+func vcErrFrom(v interface{}) error {
+	if v == nil {
+		return nil
+	}
+	m := v.(map[string]interface{})
+	inner := errors.New(vcGetStr(m, "text"))
+	if m["op"] == nil {
+		return inner
+	}
+	return OpError{Op: vcGetStr(m, "op"), Err: inner}
+}
+
+func vcErrTo(err error) interface{} {
+	if err == nil {
+		return nil
+	}
+	if oe, ok := err.(OpError); ok {
+		return vcMap{"op": vcHexS(oe.Op), "text": vcHexS(oe.Err.Error())}
+	}
+	return vcMap{"op": nil, "text": vcHexS(err.Error())}
+}
+
+func vcRespFrom(m vcMap) resp {
+	return resp{term: vcGetU64(m, "term"), result: rpcResult(vcGetU8(m, "result")), err: vcErrFrom(m["err"])}
+}
+
+func vcRespInto(m vcMap, r resp) vcMap {
+	m["term"] = vcU64(r.term)
+	m["result"] = int(r.result)
+	m["err"] = vcErrTo(r.err)
+	return m
+}
+
+func vcReplFrom(m vcMap) Replication {
+	r := Replication{
+		ID:         vcGetU64(m, "id"),
+		MatchIndex: vcGetU64(m, "matchIndex"),
+		ErrMessage: vcGetStr(m, "errMessage"),
+		Round:      vcGetU64(m, "round"),
+	}
+	if m["unreachable"] != nil {
+		t := time.Unix(0, int64(vcGetU64(m, "unreachable")))
+		r.Unreachable = &t
+	}
+	if m["err"] != nil {
+		r.Err = errors.New(vcGetStr(m, "err"))
+	}
+	return r
+}
+
+func vcReplTo(r Replication) vcMap {
+	m := vcMap{"id": vcU64(r.ID), "matchIndex": vcU64(r.MatchIndex), "unreachable": nil, "err": nil,
+		"errMessage": vcHexS(r.ErrMessage), "round": vcU64(r.Round)}
+	if r.Unreachable != nil {
+		m["unreachable"] = vcU64(uint64(r.Unreachable.UnixNano()))
+	}
+	if r.Err != nil {
+		m["err"] = vcHexS(r.Err.Error())
+	}
+	return m
+}
+
+func vcInfoFrom(m vcMap) Info {
+	info := Info{
+		CID:           vcGetU64(m, "cid"),
+		NID:           vcGetU64(m, "nid"),
+		Addr:          vcGetStr(m, "addr"),
+		Term:          vcGetU64(m, "term"),
+		State:         State(vcGetU8(m, "state")),
+		Leader:        vcGetU64(m, "leader"),
+		SnapshotIndex: vcGetU64(m, "snapshotIndex"),
+		FirstLogIndex: vcGetU64(m, "firstLogIndex"),
+		LastLogIndex:  vcGetU64(m, "lastLogIndex"),
+		LastLogTerm:   vcGetU64(m, "lastLogTerm"),
+		Committed:     vcGetU64(m, "committed"),
+		LastApplied:   vcGetU64(m, "lastApplied"),
+		Configs: Configs{
+			Committed: vcConfigFrom(vcGetMap(m, "cfgCommitted")),
+			Latest:    vcConfigFrom(vcGetMap(m, "cfgLatest")),
+		},
+	}
+	if flrs := vcGetList(m, "followers"); len(flrs) > 0 {
+		info.Followers = make(map[uint64]Replication)
+		for _, x := range flrs {
+			r := vcReplFrom(x.(map[string]interface{}))
+			info.Followers[r.ID] = r
+		}
+	}
+	return info
+}
+
+// orders: committed nodes, latest nodes, followers (nil = id-sorted)
+func vcInfoTo(info Info, orders [][]uint64) vcMap {
+	if orders == nil {
+		orders = make([][]uint64, 3)
+	}
+	forder := orders[2]
+	if forder == nil {
+		for id := range info.Followers {
+			forder = append(forder, id)
+		}
+		vcSortedIDs(forder)
+	}
+	flrs := make([]interface{}, 0, len(forder))
+	for _, id := range forder {
+		r, ok := info.Followers[id]
+		if !ok {
+			panic(fmt.Errorf("verif: encoded follower id %d not in info", id))
+		}
+		flrs = append(flrs, vcReplTo(r))
+	}
+	return vcMap{
+		"cid": vcU64(info.CID), "nid": vcU64(info.NID), "addr": vcHexS(info.Addr), "term": vcU64(info.Term),
+		"state": int(info.State), "leader": vcU64(info.Leader), "snapshotIndex": vcU64(info.SnapshotIndex),
+		"firstLogIndex": vcU64(info.FirstLogIndex), "lastLogIndex": vcU64(info.LastLogIndex),
+		"lastLogTerm": vcU64(info.LastLogTerm), "committed": vcU64(info.Committed),
+		"lastApplied":  vcU64(info.LastApplied),
+		"cfgCommitted": vcConfigTo(info.Configs.Committed, orders[0]),
+		"cfgLatest":    vcConfigTo(info.Configs.Latest, orders[1]),
+		"followers":    flrs,
+	}
+}
+
+// vcInfoOrders walks an encoded Info and returns the three wire orders.
+func vcInfoOrders(b []byte) [][]uint64 {
+	r := bytes.NewReader(b)
+	vcSkip(r, 16)
+	if _, err := readString(r); err != nil {
+		panic(fmt.Errorf("verif: info order: %v", err))
+	}
+	vcSkip(r, 8+1+7*8)
+	o1 := vcConfigOrderAt(r)
+	o2 := vcConfigOrderAt(r)
+	n, err := readUint32(r)
+	if err != nil {
+		panic(fmt.Errorf("verif: info order: %v", err))
+	}
+	o3 := make([]uint64, 0, n)
+	for ; n > 0; n-- {
+		var repl Replication
+		if err := repl.decode(r); err != nil {
+			panic(fmt.Errorf("verif: info order: %v", err))
+		}
+		o3 = append(o3, repl.ID)
+	}
+	return [][]uint64{o1, o2, o3}
+}
+
+// error types only used to exercise the "any other error" branch of encodeTaskResp
+type verifCodecErrA string
+
+func (e verifCodecErrA) Error() string { return string(e) }
+
+type verifCodecErrB struct{ s string }
+
+func (e *verifCodecErrB) Error() string { return e.s }
+
+func vcTaskErrFrom(m vcMap) error {
+	switch m["kind"] {
+	case "notLeader":
+		return NotLeaderError{Leader: vcNodeFrom(vcGetMap(m, "leader")), Lost: vcGetBool(m, "lost")}
+	case "plain":
+		return plainError(vcGetStr(m, "s"))
+	case "temporary":
+		return temporaryError(vcGetStr(m, "s"))
+	case "inProgress":
+		return InProgressError(vcGetStr(m, "s"))
+	case "other":
+		s := vcGetStr(m, "s")
+		switch m["ctor"] {
+		case "timeout":
+			return TimeoutError(s)
+		case "errorString":
+			return errors.New(s)
+		case "opError":
+			return OpError{Op: vcGetStr(m, "op"), Err: errors.New(s)}
+		case "identity":
+			return IdentityError{Cluster: 1, Node: 2, Addr: s}
+		case "verifA":
+			return verifCodecErrA(s)
+		case "verifB":
+			return &verifCodecErrB{s}
+		case "ptrNotLeader":
+			return &NotLeaderError{Leader: Node{ID: 7, Addr: s}, Lost: true}
+		}
+	}
+	panic(fmt.Errorf("verif: bad task error %v", m))
+}
+
+// vcTaskErrTo describes an error the way encodeTaskResp sees it.
+func vcTaskErrTo(err error) vcMap {
+	switch e := err.(type) {
+	case NotLeaderError:
+		return vcMap{"kind": "notLeader", "leader": vcNodeTo(e.Leader), "lost": e.Lost}
+	case plainError:
+		return vcMap{"kind": "plain", "s": vcHexS(string(e))}
+	case temporaryError:
+		return vcMap{"kind": "temporary", "s": vcHexS(string(e))}
+	case InProgressError:
+		return vcMap{"kind": "inProgress", "s": vcHexS(string(e))}
+	}
+	return vcMap{"kind": "other", "typeName": vcHexS(fmt.Sprintf("%T", err)), "text": vcHexS(err.Error())}
+}
+
+// vcTaskResultFrom returns what a task is replied with.
+func vcTaskResultFrom(m vcMap) interface{} {
+	switch m["kind"] {
+	case "err":
+		return vcTaskErrFrom(vcGetMap(m, "err"))
+	case "none":
+		return nil
+	case "index":
+		return vcGetU64(m, "v")
+	case "config":
+		return vcConfigFrom(vcGetMap(m, "c"))
+	case "info":
+		return vcInfoFrom(vcGetMap(m, "i"))
+	}
+	panic(fmt.Errorf("verif: bad task result %v", m))
+}
+
+func vcTaskResultTo(result interface{}, err error, orders [][]uint64) vcMap {
+	if err != nil {
+		return vcMap{"kind": "err", "err": vcTaskErrTo(err)}
+	}
+	switch r := result.(type) {
+	case nil:
+		return vcMap{"kind": "none"}
+	case uint64:
+		return vcMap{"kind": "index", "v": vcU64(r)}
+	case Config:
+		var o []uint64
+		if orders != nil {
+			o = orders[0]
+		}
+		return vcMap{"kind": "config", "c": vcConfigTo(r, o)}
+	case Info:
+		return vcMap{"kind": "info", "i": vcInfoTo(r, orders)}
+	}
+	panic(fmt.Errorf("verif: bad task result type %T", result))
+}
+
+func vcAdminTo(t Task) vcMap {
+	switch t := t.(type) {
+	case infoTask:
+		return vcMap{"kind": "info"}
+	case changeConfig:
+		return vcMap{"kind": "changeConfig", "c": vcConfigTo(t.newConf, nil)}
+	case waitForStableConfig:
+		return vcMap{"kind": "waitForStable"}
+	case takeSnapshot:
+		return vcMap{"kind": "takeSnapshot", "threshold": vcU64(t.threshold)}
+	case transferLdr:
+		return vcMap{"kind": "transferLdr", "target": vcU64(t.target), "timeout": vcU64(uint64(int64(t.timeout)))}
+	}
+	panic(fmt.Errorf("verif: unknown task %T", t))
+}
+
+// ---------------------------------------------------------------- fake net.Conn
+
+type verifCodecConn struct {
+	r *bytes.Reader
+	w bytes.Buffer
+}
+
+func (c *verifCodecConn) Read(p []byte) (int, error)         { return c.r.Read(p) }
+func (c *verifCodecConn) Write(p []byte) (int, error)        { return c.w.Write(p) }
+func (c *verifCodecConn) Close() error                       { return nil }
+func (c *verifCodecConn) LocalAddr() net.Addr                { return nil }
+func (c *verifCodecConn) RemoteAddr() net.Addr               { return nil }
+func (c *verifCodecConn) SetDeadline(t time.Time) error      { return nil }
+func (c *verifCodecConn) SetReadDeadline(t time.Time) error  { return nil }
+func (c *verifCodecConn) SetWriteDeadline(t time.Time) error { return nil }
+
+// the 4 KiB bufio buffers (default size, as in production) are recycled: the engine
+// decodes millions of short inputs
+var vcReaderPool = sync.Pool{New: func() interface{} { return bufio.NewReader(nil) }}
+var vcWriterPool = sync.Pool{New: func() interface{} { return bufio.NewWriter(nil) }}
+
+func vcNewConn(in []byte) (*conn, *verifCodecConn) {
+	nc := &verifCodecConn{r: bytes.NewReader(in)}
+	br := vcReaderPool.Get().(*bufio.Reader)
+	br.Reset(nc)
+	bw := vcWriterPool.Get().(*bufio.Writer)
+	bw.Reset(nc)
+	return &conn{rwc: nc, bufr: br, bufw: bw}, nc
+}
+
+func vcRelease(c *conn) {
+	c.bufr.Reset(nil)
+	c.bufw.Reset(nil)
+	vcReaderPool.Put(c.bufr)
+	vcWriterPool.Put(c.bufw)
+}
+
+func vcConsumed(total int, c *conn, nc *verifCodecConn) int {
+	return total - nc.r.Len() - c.bufr.Buffered()
+}
+
+// plain reader without ReadByte, to exercise the io.ReadFull path of readUint8
+type verifCodecPlainReader struct{ r io.Reader }
+
+func (p verifCodecPlainReader) Read(b []byte) (int, error) { return p.r.Read(b) }
+
+// ---------------------------------------------------------------- encode
+
+type vcEncoded struct {
+	b         []byte
+	asEncoded interface{}
+}
+
+func vcEncodeMsgTo(m message, w *bytes.Buffer) {
+	if err := m.encode(w); err != nil {
+		panic(err)
+	}
+}
+
+func vcEncode(kind string, m vcMap) vcEncoded {
+	w := new(bytes.Buffer)
+	switch kind {
+	case "entry":
+		e := vcEntryFrom(m)
+		if err := e.encode(w); err != nil {
+			panic(err)
+		}
+		return vcEncoded{w.Bytes(), m}
+	case "req", "timeoutNowReq":
+		vcEncodeMsgTo(&timeoutNowReq{vcReqFrom(m)}, w)
+		return vcEncoded{w.Bytes(), m}
+	case "identityReq":
+		vcEncodeMsgTo(&identityReq{req: vcReqFrom(m), cid: vcGetU64(m, "cid"), nid: vcGetU64(m, "nid")}, w)
+		return vcEncoded{w.Bytes(), m}
+	case "voteReq":
+		vcEncodeMsgTo(&voteReq{req: vcReqFrom(m), lastLogIndex: vcGetU64(m, "lastLogIndex"),
+			lastLogTerm: vcGetU64(m, "lastLogTerm"), transfer: vcGetBool(m, "transfer")}, w)
+		return vcEncoded{w.Bytes(), m}
+	case "appendReq":
+		vcEncodeMsgTo(vcAppendReqFrom(m), w)
+		return vcEncoded{w.Bytes(), m}
+	case "installSnapReq":
+		r := vcInstallSnapReqFrom(m)
+		vcEncodeMsgTo(r, w)
+		rd := bytes.NewReader(w.Bytes())
+		vcSkip(rd, 32)
+		return vcEncoded{w.Bytes(), vcInstallSnapReqTo(r, vcConfigOrderAt(rd))}
+	case "resp", "identityResp", "voteResp", "installSnapResp", "timeoutNowResp":
+		rs := vcRespFrom(m)
+		var msg message
+		switch kind {
+		case "resp":
+			msg = &rs
+		case "identityResp":
+			msg = &identityResp{rs}
+		case "voteResp":
+			msg = &voteResp{rs}
+		case "installSnapResp":
+			msg = &installSnapResp{rs}
+		default:
+			msg = &timeoutNowResp{rs}
+		}
+		vcEncodeMsgTo(msg, w)
+		return vcEncoded{w.Bytes(), m}
+	case "appendResp":
+		vcEncodeMsgTo(&appendResp{vcRespFrom(m), vcGetU64(m, "lastLogIndex")}, w)
+		return vcEncoded{w.Bytes(), m}
+	case "node":
+		if err := vcNodeFrom(m).encode(w); err != nil {
+			panic(err)
+		}
+		return vcEncoded{w.Bytes(), m}
+	case "config":
+		c := vcConfigFrom(m)
+		e := c.encode()
+		if err := e.encode(w); err != nil {
+			panic(err)
+		}
+		return vcEncoded{w.Bytes(), vcConfigTo(c, vcNodeOrder(e.data))}
+	case "snapshotMeta":
+		sm := &snapshotMeta{index: vcGetU64(m, "index"), term: vcGetU64(m, "term"),
+			config: vcConfigFrom(vcGetMap(m, "config")), size: int64(vcGetU64(m, "size"))}
+		if err := sm.encode(w); err != nil {
+			panic(err)
+		}
+		rd := bytes.NewReader(w.Bytes())
+		vcSkip(rd, 16)
+		return vcEncoded{w.Bytes(), vcSnapshotMetaTo(sm, vcConfigOrderAt(rd))}
+	case "replication":
+		r := vcReplFrom(m)
+		if err := r.encode(w); err != nil {
+			panic(err)
+		}
+		return vcEncoded{w.Bytes(), m}
+	case "info":
+		info := vcInfoFrom(m)
+		if err := info.encode(w); err != nil {
+			panic(err)
+		}
+		return vcEncoded{w.Bytes(), vcInfoTo(info, vcInfoOrders(w.Bytes()))}
+	case "taskResp":
+		return vcEncodeTaskResp(m)
+	case "adminReq":
+		return vcEncodeAdminReq(m)
+	case "msg":
+		return vcEncodeStreamMsg(m)
+	case "stream":
+		var all []byte
+		msgs := []interface{}{}
+		for _, x := range vcGetList(m, "msgs") {
+			enc := vcEncodeStreamMsg(x.(map[string]interface{}))
+			all = append(all, enc.b...)
+			msgs = append(msgs, enc.asEncoded)
+		}
+		return vcEncoded{all, vcMap{"msgs": msgs}}
+	}
+	panic(fmt.Errorf("verif: unknown kind %q", kind))
+}
+
+func vcAppendReqFrom(m vcMap) *appendReq {
+	return &appendReq{req: vcReqFrom(m), prevLogIndex: vcGetU64(m, "prevLogIndex"), prevLogTerm: vcGetU64(m, "prevLogTerm"),
+		ldrCommitIndex: vcGetU64(m, "ldrCommitIndex"), numEntries: vcGetU64(m, "numEntries")}
+}
+
+func vcAppendReqTo(r *appendReq) vcMap {
+	return vcReqInto(vcMap{"prevLogIndex": vcU64(r.prevLogIndex), "prevLogTerm": vcU64(r.prevLogTerm),
+		"ldrCommitIndex": vcU64(r.ldrCommitIndex), "numEntries": vcU64(r.numEntries)}, r.req)
+}
+
+func vcInstallSnapReqFrom(m vcMap) *installSnapReq {
+	return &installSnapReq{req: vcReqFrom(m), lastIndex: vcGetU64(m, "lastIndex"), lastTerm: vcGetU64(m, "lastTerm"),
+		lastConfig: vcConfigFrom(vcGetMap(m, "lastConfig")), size: int64(vcGetU64(m, "size"))}
+}
+
+func vcInstallSnapReqTo(r *installSnapReq, order []uint64) vcMap {
+	return vcReqInto(vcMap{"lastIndex": vcU64(r.lastIndex), "lastTerm": vcU64(r.lastTerm),
+		"lastConfig": vcConfigTo(r.lastConfig, order), "size": vcU64(uint64(r.size))}, r.req)
+}
+
+func vcSnapshotMetaTo(sm *snapshotMeta, order []uint64) vcMap {
+	return vcMap{"index": vcU64(sm.index), "term": vcU64(sm.term), "config": vcConfigTo(sm.config, order), "size": vcU64(uint64(sm.size))}
+}
+
+// the task is completed with the given result through the real task plumbing
+func vcEncodeTaskResp(m vcMap) vcEncoded {
+	result := vcTaskResultFrom(vcGetMap(m, "result"))
+	t := newTask()
+	t.reply(result)
+	w := new(bytes.Buffer)
+	if err := encodeTaskResp(t, w); err != nil {
+		panic(err)
+	}
+	var orders [][]uint64
+	rd := bytes.NewReader(w.Bytes())
+	switch result.(type) {
+	case Config:
+		vcSkip(rd, 4)
+		orders = [][]uint64{vcConfigOrderAt(rd)}
+	case Info:
+		orders = vcInfoOrders(w.Bytes()[4:])
+	}
+	return vcEncoded{w.Bytes(), vcMap{"task": m["task"], "result": vcTaskResultTo(t.Result(), t.Err(), orders)}}
+}
+
+// the request is written by the real Client method over a fake connection whose
+// read side is empty (the client then fails reading the response, which is ignored)
+func vcEncodeAdminReq(m vcMap) vcEncoded {
+	nc := &verifCodecConn{r: bytes.NewReader(nil)}
+	c := &Client{addr: "verif", dial: func(network, address string, timeout time.Duration) (net.Conn, error) { return nc, nil }}
+	as := m
+	switch m["kind"] {
+	case "info":
+		_, _ = c.GetInfo()
+	case "changeConfig":
+		conf := vcConfigFrom(vcGetMap(m, "c"))
+		_ = c.ChangeConfig(conf)
+		rd := bytes.NewReader(nc.w.Bytes())
+		vcSkip(rd, 1)
+		as = vcMap{"kind": "changeConfig", "c": vcConfigTo(conf, vcConfigOrderAt(rd))}
+	case "waitForStable":
+		_, _ = c.WaitForStableConfig()
+	case "takeSnapshot":
+		_, _ = c.TakeSnapshot(vcGetU64(m, "threshold"))
+	case "transferLdr":
+		_ = c.TransferLeadership(vcGetU64(m, "target"), time.Duration(int64(vcGetU64(m, "timeout"))))
+	default:
+		panic(fmt.Errorf("verif: bad admin request %v", m))
+	}
+	return vcEncoded{append([]byte(nil), nc.w.Bytes()...), as}
+}
+
+// one message of the request stream: conn.writeReq, then entries / snapshot bytes
+func vcEncodeStreamMsg(m vcMap) vcEncoded {
+	c, nc := vcNewConn(nil)
+	defer vcRelease(c)
+	write := func(r request) {
+		if err := c.writeReq(r, time.Time{}); err != nil {
+			panic(err)
+		}
+	}
+	as := m
+	switch m["kind"] {
+	case "identity":
+		r := vcGetMap(m, "r")
+		write(&identityReq{req: vcReqFrom(r), cid: vcGetU64(r, "cid"), nid: vcGetU64(r, "nid")})
+	case "vote":
+		r := vcGetMap(m, "r")
+		write(&voteReq{req: vcReqFrom(r), lastLogIndex: vcGetU64(r, "lastLogIndex"),
+			lastLogTerm: vcGetU64(r, "lastLogTerm"), transfer: vcGetBool(r, "transfer")})
+	case "append":
+		write(vcAppendReqFrom(vcGetMap(m, "h")))
+		for _, x := range vcGetList(m, "entries") {
+			if err := vcEntryFrom(x.(map[string]interface{})).encode(c.bufw); err != nil {
+				panic(err)
+			}
+		}
+		if err := c.bufw.Flush(); err != nil {
+			panic(err)
+		}
+	case "installSnap":
+		r := vcInstallSnapReqFrom(vcGetMap(m, "h"))
+		write(r)
+		rd := bytes.NewReader(nc.w.Bytes())
+		vcSkip(rd, 33)
+		as = vcMap{"kind": "installSnap", "h": vcInstallSnapReqTo(r, vcConfigOrderAt(rd)), "body": m["body"]}
+		if _, err := nc.Write(vcGetBytes(m, "body")); err != nil {
+			panic(err)
+		}
+	case "timeoutNow":
+		write(&timeoutNowReq{vcReqFrom(vcGetMap(m, "r"))})
+	case "admin":
+		enc := vcEncodeAdminReq(vcGetMap(m, "r"))
+		return vcEncoded{enc.b, vcMap{"kind": "admin", "r": enc.asEncoded}}
+	default:
+		panic(fmt.Errorf("verif: bad stream message %v", m))
+	}
+	return vcEncoded{append([]byte(nil), nc.w.Bytes()...), as}
+}
+
+// VerifCodecEncode encodes the value (canonical JSON) of the given kind with the real
+// encoder. asEncodedJSON is the same value with map-backed lists in the order the
+// encoder actually emitted them (Go map iteration order) and with "other" task errors
+// described by their %T / Error(). errKind is "" or "panic" / "harness:...".
+func VerifCodecEncode(kind string, valueJSON []byte) (b []byte, asEncodedJSON []byte, errKind string) {
+	defer vcRecover(&errKind)
+	enc := vcEncode(kind, vcParse(valueJSON))
+	return enc.b, vcJSON(enc.asEncoded), ""
+}
+
+// VerifEncodeTaskResp completes a task with the given result and runs encodeTaskResp.
+func VerifEncodeTaskResp(valueJSON []byte) (b []byte, asEncodedJSON []byte, errKind string) {
+	return VerifCodecEncode("taskResp", valueJSON)
+}
+
+// ---------------------------------------------------------------- decode
+
+func vcDecodeMsg(kind string, r io.Reader) (interface{}, error) {
+	switch kind {
+	case "entry":
+		e := &entry{}
+		err := e.decode(r)
+		return vcEntryTo(e), err
+	case "req", "timeoutNowReq":
+		m := &timeoutNowReq{}
+		err := m.decode(r)
+		return vcReqInto(vcMap{}, m.req), err
+	case "identityReq":
+		m := &identityReq{}
+		err := m.decode(r)
+		return vcReqInto(vcMap{"cid": vcU64(m.cid), "nid": vcU64(m.nid)}, m.req), err
+	case "voteReq":
+		m := &voteReq{}
+		err := m.decode(r)
+		return vcVoteReqTo(m), err
+	case "appendReq":
+		m := &appendReq{}
+		err := m.decode(r)
+		return vcAppendReqTo(m), err
+	case "installSnapReq":
+		m := &installSnapReq{}
+		if err := m.decode(r); err != nil {
+			return nil, err
+		}
+		return vcInstallSnapReqTo(m, nil), nil
+	case "resp":
+		m := &resp{}
+		err := m.decode(r)
+		return vcRespInto(vcMap{}, *m), err
+	case "identityResp":
+		m := &identityResp{}
+		err := m.decode(r)
+		return vcRespInto(vcMap{}, m.resp), err
+	case "voteResp":
+		m := &voteResp{}
+		err := m.decode(r)
+		return vcRespInto(vcMap{}, m.resp), err
+	case "installSnapResp":
+		m := &installSnapResp{}
+		err := m.decode(r)
+		return vcRespInto(vcMap{}, m.resp), err
+	case "timeoutNowResp":
+		m := &timeoutNowResp{}
+		err := m.decode(r)
+		return vcRespInto(vcMap{}, m.resp), err
+	case "appendResp":
+		m := &appendResp{}
+		err := m.decode(r)
+		return vcRespInto(vcMap{"lastLogIndex": vcU64(m.lastLogIndex)}, m.resp), err
+	case "node":
+		var n Node
+		err := n.decode(r)
+		return vcNodeTo(n), err
+	case "config":
+		e := &entry{}
+		if err := e.decode(r); err != nil {
+			return nil, err
+		}
+		var c Config
+		if err := c.decode(e); err != nil {
+			return nil, err
+		}
+		return vcConfigTo(c, nil), nil
+	case "snapshotMeta":
+		m := &snapshotMeta{}
+		if err := m.decode(r); err != nil {
+			return nil, err
+		}
+		return vcSnapshotMetaTo(m, nil), nil
+	case "replication":
+		var m Replication
+		err := m.decode(r)
+		return vcReplTo(m), err
+	case "info":
+		var m Info
+		if err := m.decode(r); err != nil {
+			return nil, err
+		}
+		return vcInfoTo(m, nil), nil
+	}
+	panic(fmt.Errorf("verif: unknown kind %q", kind))
+}
+
+func vcVoteReqTo(m *voteReq) vcMap {
+	return vcReqInto(vcMap{"lastLogIndex": vcU64(m.lastLogIndex), "lastLogTerm": vcU64(m.lastLogTerm), "transfer": m.transfer}, m.req)
+}
+
+// VerifCodecDecode decodes one value of the given kind from the front of b with the
+// real decoder. Kinds: the VerifCodecEncode kinds, "taskResp:<typ>", "adminReq"
+// (type byte + server.handleTask), "stream:<n>" (n messages as the server reads them).
+// Messages that travel over connections are read through a bufio.Reader like in
+// production; snapshotMeta through a plain reader (a file). consumed is meaningful
+// only when errKind == "".
+func VerifCodecDecode(kind string, b []byte) (valueJSON []byte, consumed int, errKind string) {
+	defer vcRecover(&errKind)
+	switch {
+	case strings.HasPrefix(kind, "taskResp:"):
+		typ, err := strconv.Atoi(kind[len("taskResp:"):])
+		if err != nil {
+			panic(fmt.Errorf("verif: bad kind %q", kind))
+		}
+		return VerifDecodeTaskResp(byte(typ), b)
+	case kind == "adminReq":
+		return vcHandleTask(b)
+	case strings.HasPrefix(kind, "stream:"):
+		n, err := strconv.Atoi(kind[len("stream:"):])
+		if err != nil {
+			panic(fmt.Errorf("verif: bad kind %q", kind))
+		}
+		return vcStream(b, n)
+	}
+	var v interface{}
+	var err error
+	switch kind {
+	case "snapshotMeta":
+		br := bytes.NewReader(b)
+		v, err = vcDecodeMsg(kind, verifCodecPlainReader{br})
+		consumed = len(b) - br.Len()
+	case "entry", "config", "node", "replication":
+		// also decoded from in-memory buffers in production (log entries, entry data)
+		br := bytes.NewReader(b)
+		v, err = vcDecodeMsg(kind, br)
+		consumed = len(b) - br.Len()
+	default:
+		c, nc := vcNewConn(b)
+		v, err = vcDecodeMsg(kind, c.bufr)
+		consumed = vcConsumed(len(b), c, nc)
+		vcRelease(c)
+	}
+	if err != nil {
+		return nil, 0, vcErrKind(err)
+	}
+	return vcJSON(v), consumed, ""
+}
+
+// VerifDecodeTaskResp runs decodeTaskResp(typ, r) on the front of b.
+func VerifDecodeTaskResp(typ byte, b []byte) (valueJSON []byte, consumed int, errKind string) {
+	defer vcRecover(&errKind)
+	c, nc := vcNewConn(b)
+	defer vcRelease(c)
+	result, err := decodeTaskResp(taskType(typ), c.bufr)
+	if err != nil {
+		switch err.(type) {
+		case NotLeaderError, plainError, temporaryError, InProgressError:
+		default:
+			// a decoded "other" error is an *errors.errorString too: it is told apart from a
+			// decoder failure by the decoder failures being the io sentinels / invalidTaskType
+			if k := vcErrKind(err); !strings.HasPrefix(k, "other:") {
+				return nil, 0, k
+			}
+		}
+	}
+	return vcJSON(vcMap{"task": int(typ), "result": vcTaskResultTo(result, err, nil)}), vcConsumed(len(b), c, nc), ""
+}
+
+// vcHandleTask feeds b (type byte + body) to the real server.handleTask. The raft side
+// is a goroutine that takes the task from Tasks(), records it and completes it.
+func vcHandleTask(b []byte) (valueJSON []byte, consumed int, errKind string) {
+	defer vcRecover(&errKind)
+	c, nc := vcNewConn(b)
+	defer vcRelease(c)
+	tb, err := c.bufr.ReadByte()
+	if err != nil {
+		return nil, 0, vcErrKind(err)
+	}
+	typ := taskType(tb)
+	if !typ.isValid() {
+		return nil, 0, "invalidTaskType"
+	}
+	r := &Raft{taskCh: make(chan Task), close: make(chan struct{})}
+	s := &server{r: r, stopCh: make(chan struct{})}
+	got := make(chan Task, 1)
+	stop := make(chan struct{})
+	go func() {
+		select {
+		case t := <-r.taskCh:
+			got <- t
+			t.reply(nil)
+		case <-stop:
+		}
+	}()
+	err = s.handleTask(typ, c)
+	close(stop)
+	if err != nil {
+		return nil, 0, vcErrKind(err)
+	}
+	t := <-got
+	return vcJSON(vcAdminTo(t)), vcConsumed(len(b), c, nc), ""
+}
+
+// vcStream consumes n messages the way server.handleConn + Raft.replyRPC +
+// onAppendEntriesRequest / onInstallSnapRequest do. For requests whose term is below
+// MaxUint64 the entries / snapshot bytes are consumed by the REAL handlers (their
+// staleTerm "drain" path, on a Raft whose term is MaxUint64); for term == MaxUint64 the
+// same loops are replayed here.
+func vcStream(b []byte, n int) (valueJSON []byte, consumed int, errKind string) {
+	defer vcRecover(&errKind)
+	c, nc := vcNewConn(b)
+	defer vcRelease(c)
+	r := &Raft{storage: &storage{term: math.MaxUint64}}
+	msgs := make([]interface{}, 0, n)
+	for i := 0; i < n; i++ {
+		tb, err := c.bufr.ReadByte()
+		if err != nil {
+			return nil, 0, vcErrKind(err)
+		}
+		if ttype := taskType(tb); ttype.isValid() {
+			// handleTask needs a raft to answer; the body parsing is what matters here
+			rest, cons, ek := vcHandleTaskBody(ttype, c)
+			_ = cons
+			if ek != "" {
+				return nil, 0, ek
+			}
+			msgs = append(msgs, vcMap{"kind": "admin", "r": rest})
+			continue
+		}
+		rtype := rpcType(tb)
+		if !rtype.isValid() {
+			return nil, 0, "invalidRpcType"
+		}
+		rq := rtype.createReq()
+		if err := rq.decode(c.bufr); err != nil {
+			return nil, 0, vcErrKind(err)
+		}
+		switch rq := rq.(type) {
+		case *identityReq:
+			msgs = append(msgs, vcMap{"kind": "identity", "r": vcReqInto(vcMap{"cid": vcU64(rq.cid), "nid": vcU64(rq.nid)}, rq.req)})
+		case *voteReq:
+			msgs = append(msgs, vcMap{"kind": "vote", "r": vcVoteReqTo(rq)})
+		case *timeoutNowReq:
+			msgs = append(msgs, vcMap{"kind": "timeoutNow", "r": vcReqInto(vcMap{}, rq.req)})
+		case *appendReq:
+			h := vcAppendReqTo(rq)
+			before := vcConsumed(len(b), c, nc)
+			// the entries are re-read below from the same bytes to report them
+			if rq.term < math.MaxUint64 {
+				result, err := r.onAppendEntriesRequest(rq, c)
+				if result == readErr {
+					return nil, 0, vcErrKind(err)
+				}
+				if result != staleTerm {
+					panic(fmt.Errorf("verif: drain path returned %v", result))
+				}
+			} else {
+				for k := rq.numEntries; k > 0; k-- {
+					_ = isEntryBuffered(c.bufr)
+					ne := &entry{}
+					if err := ne.decode(c.bufr); err != nil {
+						return nil, 0, vcErrKind(err)
+					}
+				}
+			}
+			after := vcConsumed(len(b), c, nc)
+			entries := []interface{}{}
+			er := bytes.NewReader(b[before:after])
+			for er.Len() > 0 {
+				ne := &entry{}
+				if err := ne.decode(er); err != nil {
+					panic(fmt.Errorf("verif: re-reading drained entries: %v", err))
+				}
+				entries = append(entries, vcEntryTo(ne))
+			}
+			msgs = append(msgs, vcMap{"kind": "append", "h": h, "entries": entries})
+		case *installSnapReq:
+			h := vcInstallSnapReqTo(rq, nil)
+			before := vcConsumed(len(b), c, nc)
+			if rq.term < math.MaxUint64 {
+				result, err := r.onInstallSnapRequest(rq, c)
+				if result == readErr {
+					return nil, 0, vcErrKind(err)
+				}
+				if result != staleTerm {
+					panic(fmt.Errorf("verif: drain path returned %v", result))
+				}
+			} else if rq.size > 0 {
+				if _, err := io.CopyN(ioutil.Discard, c.bufr, rq.size); err != nil {
+					return nil, 0, vcErrKind(err)
+				}
+			}
+			after := vcConsumed(len(b), c, nc)
+			msgs = append(msgs, vcMap{"kind": "installSnap", "h": h, "body": vcHex(b[before:after])})
+		}
+	}
+	return vcJSON(vcMap{"msgs": msgs}), vcConsumed(len(b), c, nc), ""
+}
+
+// vcHandleTaskBody runs the real handleTask on an open connection (stream case).
+func vcHandleTaskBody(typ taskType, c *conn) (interface{}, int, string) {
+	r := &Raft{taskCh: make(chan Task), close: make(chan struct{})}
+	s := &server{r: r, stopCh: make(chan struct{})}
+	got := make(chan Task, 1)
+	stop := make(chan struct{})
+	go func() {
+		select {
+		case t := <-r.taskCh:
+			got <- t
+			t.reply(nil)
+		case <-stop:
+		}
+	}()
+	err := s.handleTask(typ, c)
+	close(stop)
+	if err != nil {
+		return nil, 0, vcErrKind(err)
+	}
+	return vcAdminTo(<-got), 0, ""
+}
+
+// VerifClientCall runs the real Client method for the admin request against a fake
+// connection that answers with resp. It returns the bytes the client wrote and the
+// task result the client decoded (as a taskResp value).
+func VerifClientCall(valueJSON []byte, resp []byte) (written []byte, resultJSON []byte, errKind string) {
+	defer vcRecover(&errKind)
+	m := vcParse(valueJSON)
+	nc := &verifCodecConn{r: bytes.NewReader(resp)}
+	c := &Client{addr: "verif", dial: func(network, address string, timeout time.Duration) (net.Conn, error) { return nc, nil }}
+	var result interface{}
+	var err error
+	var typ taskType
+	switch m["kind"] {
+	case "info":
+		typ = taskInfo
+		var info Info
+		info, err = c.GetInfo()
+		result = info
+	case "changeConfig":
+		typ = taskChangeConfig
+		err = c.ChangeConfig(vcConfigFrom(vcGetMap(m, "c")))
+	case "waitForStable":
+		typ = taskWaitForStableConfig
+		var conf Config
+		conf, err = c.WaitForStableConfig()
+		result = conf
+	case "takeSnapshot":
+		typ = taskTakeSnapshot
+		var idx uint64
+		idx, err = c.TakeSnapshot(vcGetU64(m, "threshold"))
+		result = idx
+	case "transferLdr":
+		typ = taskTransferLdr
+		err = c.TransferLeadership(vcGetU64(m, "target"), time.Duration(int64(vcGetU64(m, "timeout"))))
+	default:
+		panic(fmt.Errorf("verif: bad admin request %v", m))
+	}
+	written = append([]byte(nil), nc.w.Bytes()...)
+	if err != nil {
+		switch err.(type) {
+		case NotLeaderError, plainError, temporaryError, InProgressError:
+		default:
+			if k := vcErrKind(err); !strings.HasPrefix(k, "other:") {
+				return written, nil, k
+			}
+		}
+	}
+	return written, vcJSON(vcMap{"task": int(typ), "result": vcTaskResultTo(result, err, nil)}), ""
+}
+
+// VerifIsEntryBuffered runs isEntryBuffered on a bufio.Reader that has exactly b buffered.
+func VerifIsEntryBuffered(b []byte) (buffered bool, errKind string) {
+	defer vcRecover(&errKind)
+	size := len(b)
+	if size < 16 {
+		size = 16
+	}
+	r := bufio.NewReaderSize(bytes.NewReader(b), size)
+	if _, err := r.Peek(len(b)); err != nil {
+		panic(fmt.Errorf("verif: peek: %v", err))
+	}
+	if r.Buffered() != len(b) {
+		panic(fmt.Errorf("verif: buffered %d, want %d", r.Buffered(), len(b)))
+	}
+	return isEntryBuffered(r), ""
+}
+
+// ---------------------------------------------------------------- value files
+
+const verifCodecExt = ".v"
+
+// VerifValueFormat is the file name (without extension) valueFile gives to (a, b).
+func VerifValueFormat(a, b uint64) string {
+	return strings.TrimSuffix(filepath.Base(valueFile("", verifCodecExt, a, b)), verifCodecExt)
+}
+
+// VerifValueParse puts a single file "<name><ext>" into a fresh directory and lets the
+// real openValue read it back.
+func VerifValueParse(name string) (a, b uint64, err error) {
+	defer func() {
+		if r := recover(); r != nil {
+			err = fmt.Errorf("panic: %v", r)
+		}
+	}()
+	dir, err := ioutil.TempDir(VerifTempDir, "verifvalue")
+	if err != nil {
+		return 0, 0, fmt.Errorf("verif: %v", err)
+	}
+	defer os.RemoveAll(dir)
+	if err := ioutil.WriteFile(filepath.Join(dir, name+verifCodecExt), nil, 0600); err != nil {
+		return 0, 0, fmt.Errorf("verif: %v", err)
+	}
+	v, err := openValue(dir, verifCodecExt)
+	if err != nil {
+		return 0, 0, err
+	}
+	a, b = v.get()
+	return a, b, nil
+}
+
+// VerifValueRoundTrip: openValue on a fresh directory, set(a, b), openValue again, get.
+func VerifValueRoundTrip(a, b uint64) (ra, rb uint64, err error) {
+	defer func() {
+		if r := recover(); r != nil {
+			err = fmt.Errorf("panic: %v", r)
+		}
+	}()
+	dir, err := ioutil.TempDir(VerifTempDir, "verifvalue")
+	if err != nil {
+		return 0, 0, fmt.Errorf("verif: %v", err)
+	}
+	defer os.RemoveAll(dir)
+	v, err := openValue(dir, verifCodecExt)
+	if err != nil {
+		return 0, 0, err
+	}
+	if err := v.set(a, b); err != nil {
+		return 0, 0, err
+	}
+	v2, err := openValue(dir, verifCodecExt)
+	if err != nil {
+		return 0, 0, err
+	}
+	ra, rb = v2.get()
+	return ra, rb, nil
+}
